@@ -6,11 +6,14 @@ Decided:
               `limit <= in-flight`), the counter is incremented in the same critical section and before the
               hand-over to the delegate
   R-COUNT     the counter is incremented only by the hand-over loop (once per dequeued job) and decremented
-              only by the delegate-done callback, which is registered exactly once per hand-over
+              only by the delegate-done callback, which is registered exactly once per hand-over (whatever its
+              form: classmethod + partial, module function, closure); every read-modify-write of the counter
+              holds the counter's own lock (updates run on different threads)
   R-FIFO      queue discipline: enqueue = append, dequeue = popleft, the hand-over list is appended and iterated
               forward; no other mutation than remove (cancel)
   R-NULLABLE  every ordered comparison against the limit is dominated by an `is None` test on that value
-  R-LASTGOOD  a raising count callable leaves the last value in force
+  R-LASTGOOD  a raising count callable leaves the last value in force (evaluated on the worker's and on submit's
+              paths with helpers inlined)
   R-WAKE-*    promptness: producers wake the hand-over loop; blocked submitters (second waiter) -- F6
 Not decided: the in-flight bound under all interleavings; dynamic-count latency.
 """
